@@ -583,6 +583,13 @@ def run(ctx):
             v2 = ctx.view(NATIVE, roots=['get_new_myth_thread_struct_stack', c12.STACK_FREE, 'myth_flmalloc', 'myth_flfree'],
                           stops=('myth_freelist_pop', 'myth_freelist_push', 'myth_mmap'), flavour=fl)
             ctx.attempt(c12.rule4_affine, ctx, v2)
+        from . import c17
+        with ctx.shared({'C17.2': 'C01.14'}, keep=lambda k: k.startswith('leaf:') or 'result' in k, floor=2,
+                        doc='bulk creation (shared with C17.2): myth_create_join_many / various hand every thread its own argument and store '
+                            'its return value in its own result slot (results + i * result_stride)'):
+            v17 = ctx.view(NATIVE, roots=['myth_create_join_various_ex_aux', 'myth_create_join_various_ex_body', 'myth_create_join_many_ex_body'],
+                           stops=('myth_create_ex_body', 'myth_join_body', 'myth_self', 'myth_self_body'), flavour=fl)
+            ctx.attempt(c17.rule2_strides, ctx, v17)
         from . import c13, c02
         with ctx.shared({'C13.4': 'C01.10'}, floor=7,
                         doc='timed join (shared with C13.4): success only after a successful try, "busy" only past the deadline and '
